@@ -29,6 +29,12 @@ fn dist_names() -> Vec<Vec<u8>> {
         b"x.tgz".to_vec(),
         b"dir/x.tgz".to_vec(),
         // a leading "./" is part of the spelling (same file as without it), "../" is not
+        // any name is a name: absolute, with "..", containing the RCS marker, patch-like with a
+        // trailing separator (still a patch), a patch below a directory whose name contains ".tar."
+        b"../shared/bar.tgz".to_vec(),
+        b"/net/distfiles/foo.tar.gz".to_vec(),
+        b"cvs-$NetBSD$-keywords.tgz".to_vec(),
+        b"libfoo-1.2.tar.gz.d/patch-aa".to_vec(),
         // spellings with doubled / dotted / trailing separators are kept as written
         b"dir//f.tgz".to_vec(),
         b"dir/./g.tgz".to_vec(),
@@ -43,6 +49,9 @@ fn dist_names() -> Vec<Vec<u8>> {
 }
 fn patch_names() -> Vec<Vec<u8>> {
     vec![
+        b"patch-ab/".to_vec(),
+        b"patch-ac//".to_vec(),
+        b"patch-ad/.".to_vec(),
         b"patch-aa".to_vec(),
         b"patch-src_main.c".to_vec(),
         b"emul-linux-patch-a".to_vec(),
@@ -299,6 +308,13 @@ fn gen_c11(tier: &str, rng: &mut Rng, emit: &mut dyn FnMut(Op)) {
     for p in probes {
         emit(Op::new("entrytype", &[p]));
     }
+    // version-control noise is garbage like any other line: it changes nothing around it
+    for doc in [&b"<<<<<<< HEAD\nSHA1 (patch-aa) = 11\n=======\nSHA1 (patch-ab) = 22\nSize (x.tgz) = 5 bytes\n>>>>>>> branch\nSHA1 (patch-ac) = 33\n"[..],
+        b"=======\nSHA1 (a.tgz) = 11\n", b"<<<<<<< x\n=======\nSHA1 (a.tgz) = 11\nSHA1 (b.tgz) = 22\n",
+        b"SHA1 (a.tgz) = 11\n<<<<<<< \nSHA1 (a.tgz) = 22\n=======\nSHA1 (a.tgz) = 33\n",
+        b"SHA512 (cvs-$NetBSD$-keywords.tgz) = 11bb\nSize (cvs-$NetBSD$-keywords.tgz) = 7 bytes\nSHA1 (x) = $NetBSD$\n"] {
+        emit(Op::new("distinfo.parse", &[doc]));
+    }
     // ".tar." ANYWHERE in the name keeps a patch-like name with the distfiles — also when more
     // suffixes follow it, when it is the very end, or when it occurs twice
     for pre in ["patch-", "emul-linux-patch-", "patch-2.7.6", "emul-a-patch-b", "sub/patch-", "foo-"] {
@@ -411,6 +427,10 @@ fn gen_c12(tier: &str, rng: &mut Rng, emit: &mut dyn FnMut(Op)) {
         b"line one\nlast line without newline".to_vec(),
         // '$NetBSD' after other '$' signs / doubled '$' / restarts of a near miss: still a marker line
         b"+.if ${FOO} > 5.4 # $NetBSD$\nkeep\n$$NetBSD: Makefile,v 1.2 $$\nkeep2\n$Net$NetBSD\n$NetBS$NetBSD x\n".to_vec(),
+        // only "$NetBSD" marks a line: other RCS keywords are content; a marker counts wherever it
+        // stands, also inside a hunk
+        b"$Id$\n--- a\n+++ b\n$Revision: 1.2 $\n$Date$ $Author: x $\n+$Header$\n$Source: /cvs/x,v $\n".to_vec(),
+        b"--- a\n+++ b\n@@ -1,3 +1,3 @@\n-$NetBSD: old $\n+$NetBSD: new $\n context\n@@ \n$NetBSD\n".to_vec(),
         // files larger than one 8 KiB read buffer: the marker (7 bytes) cut by the 8192 / 16384
         // boundary at each of its inner positions, a marker line starting exactly there, a
         // multi-byte character across it
